@@ -529,6 +529,73 @@ def rule_FR15(rep, prog):
         rep.unknown(rid, "fewer than 2 skip-carrying transform blocks analysed (%d)" % n)
 
 
+def rule_FR16(rep, prog):
+    from .C13 import linform
+    rid = rep.rule("C20-FR16", "the read-ahead debt carried to the next region only accumulates: every store to the `skip` counter of a UTF applier block is a reset to 0 "
+                   "(after the skip was applied) or the previous value plus / minus something (skip += bytes read ahead, skip -= size of a region skipped whole) - an "
+                   "assignment of a fresh constant forgets bytes that an earlier read-ahead in the same region had already consumed", floor=4)
+    n = 0
+    for fn in prog.all_functions():
+        if not fn.name.startswith("___dispatch_transform_") or len(fn.params) < 5:
+            continue
+        adv = [g for g in fn.all_insts() if g.op == "getelementptr" and root_ptr(fn, g.ops[0]) == ("a", 3) and len(g.ops) == 2 and g.ops[1][0] == "i"
+               and fn.inst(g.ops[1]) is not None and fn.inst(g.ops[1]).op == "load"]
+        if not adv:
+            continue
+        V = fn.inst(adv[0].ops[1])
+        P = fn.inst(V.d["ptr"]["base"]) if V.d.get("ptr") and V.d["ptr"]["base"][0] == "i" else None
+        if P is None or P.op != "load" or not P.d.get("ptr") or tuple(P.d["ptr"]["base"][:2]) != ("a", 0):
+            continue
+        off = P.d["ptr"].get("off")
+        def is_skip_ptr(o):
+            i = fn.inst(o)
+            return i is not None and i.op == "load" and i.d.get("ptr") and tuple(i.d["ptr"]["base"][:2]) == ("a", 0) and i.d["ptr"].get("off") == off
+        for st in fn.all_insts():
+            if st.op != "store" or not st.d.get("ptr") or not is_skip_ptr(st.d["ptr"]["base"]):
+                continue
+            n += 1
+            rep.saw(fn)
+            v = st.ops[0]
+            ok = v[0] == "c" and v[1] == 0
+            if not ok and v[0] == "i":
+                lf = linform(fn, v)
+                ok = any(isinstance(a, tuple) and a[0] == "i" and fn.insts[a[1]].op == "load" and fn.insts[a[1]].d.get("ptr")
+                         and is_skip_ptr(fn.insts[a[1]].d["ptr"]["base"]) and c == 1 for a, c in lf.items())
+            rep.require(rid, ok, st.loc, fn.name, "skip-overwritten:%s" % fn.name,
+                        "%s assigns the carried read-ahead counter instead of adding to it: when the same region has already run ahead once (an odd-sized region "
+                        "ending in the first byte of a high surrogate sets skip = 1 before the low surrogate is fetched across the boundary), that debt is discarded, "
+                        "the next region resumes one byte early and is decoded misaligned - the result depends on where the input is split" % fn.name,
+                        sample={"store": st.loc})
+    if n < 4:
+        rep.unknown(rid, "fewer than 4 stores to the carried skip counter found (%d)" % n)
+
+
+def rule_BD17(rep, prog):
+    rid = rep.rule("C20-BD17", "UTF-16 surrogate construction stays inside the surrogate blocks: the value added to 0xD800 (high) and to 0xDC00 (low) is masked to 10 "
+                   "bits - the UTF-8 reader does not reject 4-byte forms above U+10FFFF, and an unmasked `(wch >> 10) + 0xD800` then lands in the LOW surrogate block, "
+                   "producing output the inverse transform rejects", floor=2)
+    fn = prog.fn("___dispatch_transform_to_utf16_block_invoke")
+    rep.saw(fn)
+    n = 0
+    for a in fn.all_insts():
+        if a.op not in ("add", "or") or not any(o[0] == "c" and o[1] in (0xd800, 0xdc00) for o in a.ops):
+            continue
+        other = [o for o in a.ops if not (o[0] == "c" and o[1] in (0xd800, 0xdc00))]
+        if not other:
+            continue
+        n += 1
+        x = fn.inst(other[0])
+        while x is not None and x.op in ("zext", "trunc") and not (x.op == "trunc" and x.d.get("ty") in ("i8",)):
+            x = fn.inst(x.ops[0])
+        ok = x is not None and x.op == "and" and x.ops[1][0] == "c" and x.ops[1][1] <= 0x3ff
+        rep.require(rid, ok, a.loc, fn.name, "surrogate-half-not-masked",
+                    "the UTF-16 encoder forms a surrogate as (value + %#x) without masking the value to 10 bits: for a (malformed but accepted) 4-byte UTF-8 form above "
+                    "U+10FFFF the unit leaves its surrogate block (a `high` surrogate in DC00..DFFF), so the encoder emits an unpaired surrogate"
+                    % [o[1] for o in a.ops if o[0] == "c"][0], sample={"site": a.loc})
+    if n < 2:
+        rep.unknown(rid, "fewer than 2 surrogate constructions found in the UTF-16 encoder (%d)" % n)
+
+
 def rule_BD8(rep, prog):
     rid = rep.rule("C20-BD8", "UTF-16 decoding reads a code unit directly from the region buffer only at an index that was tested NOT to be the split last unit of an "
                    "odd-sized region (index == max-1 && max > size/2); the split unit is fetched through _dispatch_data_subrange_map", floor=2)
@@ -870,7 +937,11 @@ def run(rep, tier="quick", srcdir=None, only=None):
         rule_FR14(rep, prog)
     if want("C20-FR15"):
         rule_FR15(rep, prog)
-    if want("C13-AI10") or want("C13-OD5") or want("C13-AI6"):
+    if want("C20-FR16"):
+        rule_FR16(rep, prog)
+    if want("C20-BD17"):
+        rule_BD17(rep, prog)
+    if want("C13-AI10") or want("C13-OD5") or want("C13-AI6") or want("C13-SB9"):
         # the transforms see their input only as the regions dispatch_data_apply hands them and read ahead through create_subrange / create_map: "independent
         # of fragmentation" and "never reads outside the input" rest on the record walks of data.c tiling the byte string exactly (shared with C13)
         from . import C13
@@ -881,6 +952,10 @@ def run(rep, tier="quick", srcdir=None, only=None):
             C13.rule_OD5(rep, pd)
         if want("C13-AI6"):
             C13.rule_AI6(rep, pd)
+        if want("C13-SB9"):
+            # the read-ahead helper asks for the range that starts exactly at the end of the data when the input ends in a lone high surrogate: that request
+            # must come back empty, for a composite object too (shared with C13)
+            C13.rule_SB9(rep, pd)
 
 
 MANIFEST = {
